@@ -46,7 +46,34 @@ CLAIMED = {
          "with the option on and off; TLC judges permutation, group locality, NAME order (stable), ignored/out-of-range groups, census; the Impl model (partition + stable sort) is bound by drift detection.",
          "TLC model SortRequires (Fails + ImplPos drift) on recorded top-level statement facts", "5 C12"),
 }
+CLI_NOTE = ("Trusted base: TLC 1.8.0; the add-only hooks of src/cli/verif_hooks.rs (cfg stylua_verif); the scenario driver tools/clirun.py "
+            "(tree materialisation outside git repositories, uid 65534 via setpriv, file snapshots); vh libfmt for expected contents. "
+            "Bounded: generator constants in spec/MC_*.cfg; only executed scenarios count.")
+CLI_CLAIMED = {
+ "C13": ("Every sequence of <= 2 (thorough: 3) files over 9 classes (formatted, unformatted, unparseable, missing, unreadable, read-only, verification-failing, crashing, non-UTF-8), "
+         "named explicitly or inside a directory, x mode x 4 output formats x --verify x thread counts, run on the hooked binary; each run's hook trace (dispatch, fs_write, atomic accesses to the exit "
+         "status, exit) is replayed through Cli.tla's actions by TLC, the traced atomics must agree with the model value, and the final observation (bytes, mtimes, created files, exit, printed diffs) is judged by Cli!FinalFails.",
+         "G(MC_CliFiles)->R(hooked binary)->V(Trace_Cli over Cli.tla)", "5 C13"),
+ "C14": ("Same scenario space in write mode: final bytes equal the library's output exactly for files that differ and did not fail, all others byte- and mtime-identical, write attempts only for those, exit 2 iff something failed "
+         "(crashing worker via the fault point; verification failure via --verify --sort-requires).",
+         "G(MC_CliFiles)->R->V(Cli!FinalFails, write mode)", "5 C14"),
+ "C19": ("The accesses to the exit status are extracted per thread role from a free run of the CURRENT binary; TLC enumerates every interleaving of them with every arrival order of results (ExitCode.tla, invariant StatusTruthful, "
+         "liveness Terminates) and each interleaving is forced on the real binary through the hook scheduler; plus a free-running --num-threads 1..16 sweep and the C13/C14 scenario space under several thread counts.",
+         "TLC model ExitCode (all interleavings) replayed as forced schedules + trace validation", "5 C19"),
+}
 checks = []
+for pid, (text, tech, ref) in sorted(CLI_CLAIMED.items()):
+    checks.append({
+        "property_id": pid,
+        "quick_cmd": "./check %s --tier quick" % pid,
+        "thorough_cmd": "./check %s --tier thorough" % pid,
+        "evidence_file": "evidence/%s.json" % pid,
+        "replay_cmd_template": "./check %s --replay {path}" % pid,
+        "engine": "cli-grv",
+        "level_claimed": {"category": "model_checking", "text": text, "design_ref": "DESIGN.md section " + ref},
+        "level_note": CLI_NOTE,
+        "technique": tech,
+    })
 for pid, (text, tech, ref) in sorted(CLAIMED.items()):
     checks.append({
         "property_id": pid,
@@ -59,19 +86,22 @@ for pid, (text, tech, ref) in sorted(CLAIMED.items()):
         "level_note": LIB_NOTE,
         "technique": tech,
     })
+checks.sort(key=lambda c: c["property_id"])
 m = {
  "version": 1,
  "setup_cmd": "./setup.sh",
  "hooks": {"guard": "stylua_verif",
            "enable": "RUSTFLAGS='--cfg stylua_verif --check-cfg cfg(stylua_verif)' cargo build --offline --bin stylua (done by ./check for C13-C20 into build/target-cli)",
            "baseline_off_cmd": "cd /repo && cargo test --workspace --no-fail-fast --offline",
-           "source_commits": [], "add_only": True},
+           "source_commits": ["8c7ec8c", "4ec077d", "ddc690c"], "add_only": True},
  "engines": [
+   {"name": "cli-grv", "path": "tools/clicheck.py", "serves_properties": sorted(CLI_CLAIMED.keys()),
+    "kind_free_text": "TLC scenario generators (spec/MC_Cli*.tla, MC_ExitCode.tla ...) -> tools/clirun.py runs the hooked stylua binary on materialised trees (forced schedules through src/cli/verif_hooks.rs) -> TLC trace validation (spec/Trace_Cli.tla over Cli.tla)"},
    {"name": "lib-grv", "path": "tools/libcheck.py", "serves_properties": sorted(CLAIMED.keys()),
     "kind_free_text": "TLC generator models (spec/MC_*.tla) -> Rust replay harness (harness/) on stylua_lib::format_code -> TLC trace validation (spec/Trace_Lib.tla over spec/Formatter.tla, LuaSyntax.tla, ExprParens.tla)"},
  ],
  "checks": checks,
- "not_applicable": [{"property_id": p["id"], "reason": "check not built yet (build in progress, DESIGN.md section 8.1)"} for p in props if p["id"] not in CLAIMED],
+ "not_applicable": [{"property_id": p["id"], "reason": "check not built yet (build in progress, DESIGN.md section 8.1)"} for p in props if p["id"] not in CLAIMED and p["id"] not in CLI_CLAIMED],
  "notes": "Exit 2 = tool error (never a VIOLATION line). known_findings.json lists genuine defects by signature; fixed: entries suppress nothing.",
 }
 json.dump(m, open(os.path.join(root, "MANIFEST.json"), "w"), indent=1)
